@@ -4,9 +4,10 @@ CONSTANTS
   MaxSlot = 7
   MaxGen = 2
   MaxFaults = 2
+  MaxPersist = 2
   Variants = 2
   Kinds = {"att", "blk"}
-  FaultKinds = {"crash", "crashafter", "fail", "rerr", "rmiss"}
+  FaultKinds = {"crash", "crashafter", "fail", "failall", "rerr", "rmiss"}
   Weaken = "none"
 INVARIANT TypeOK
 INVARIANT NoSlashable
